@@ -62,8 +62,62 @@ let tf b = if b then "TRUE" else "FALSE"
 let flags_of = function
   | "exec" -> M.fl_exec | "args" -> M.fl_args | "strv" -> M.fl_strv | _ -> failwith "bad flags"
 
+let dump_unit (u : (M.n list * (M.n list * M.n list) list) list) : string list =
+  List.concat_map (fun (name, es) ->
+    "S" :: of_str name :: List.concat_map (fun (k, v) -> ["E"; of_str k; of_str v]) es) u @ ["."]
+
+let parse_text (field : string) = M.parse_unit (to_str field)
+
+let pres_list = function M.POk l -> ok (List.map of_str l) | M.PPanic -> "PANIC"
+
+let rec unit_ops (u : (M.n list * (M.n list * M.n list) list) list) (errs : int) (f : string list) =
+  match f with
+  | [] -> (u, errs)
+  | name :: rest ->
+    (match bare name, rest with
+     | "add", s :: k :: v :: r -> unit_ops (M.unit_add u (to_str s) (to_str k) (to_str v)) errs r
+     | "add_raw", s :: k :: v :: r ->
+         (match M.unit_add_raw u (to_str s) (to_str k) (to_str v) with Some u' -> unit_ops u' errs r | None -> unit_ops u (errs + 1) r)
+     | "set", s :: k :: v :: r -> unit_ops (M.unit_set u (to_str s) (to_str k) (to_str v)) errs r
+     | "set_raw", s :: k :: v :: r ->
+         (match M.unquote_value (to_str v) with Some _ -> unit_ops (M.set_entry u (to_str s) (to_str k) (to_str v)) errs r | None -> unit_ops u (errs + 1) r)
+     | "prepend", s :: k :: v :: r -> unit_ops (M.unit_prepend u (to_str s) (to_str k) (to_str v)) errs r
+     | "rename", a :: b :: r -> unit_ops (M.rename_section u (to_str a) (to_str b)) errs r
+     | "merge", t :: r -> (match parse_text t with M.Ok o -> unit_ops (M.merge_from u o) errs r | _ -> unit_ops u (errs + 1) r)
+     | _ -> failwith "bad unit op")
+
 let run (op : string) (f : string list) : string =
   match op, f with
+  | "parse", [t] -> (match parse_text t with M.Ok u -> ok (dump_unit u) | M.Err -> "ERR\tUnit" | M.OutOfFuel -> "MODELFAIL\t" ^ hex "fuel")
+  | "render", [t] -> (match parse_text t with
+      | M.Ok u -> ok [of_str (M.to_string u); of_str (List.concat (M.write_calls u))]
+      | M.Err -> "ERR\tUnit" | M.OutOfFuel -> "MODELFAIL\t" ^ hex "fuel")
+  | "unit_ops", ops ->
+      let (u, errs) = unit_ops [] 0 ops in
+      ok (string_of_int errs :: dump_unit u @ [of_str (M.to_string u)])
+  | "lookup", [t; sec; key; kind] ->
+      (match parse_text t with
+       | M.Ok u ->
+         let sec = to_str sec and key = to_str key in
+         (match bare kind with
+          | "last" -> (match M.lookup_last u sec key with Some (M.POk v) -> ok ["SOME"; of_str v] | Some M.PPanic -> "PANIC" | None -> ok ["NONE"])
+          | "last_raw" -> (match M.lookup_last_value u sec key with Some v -> ok ["SOME"; of_str v] | None -> ok ["NONE"])
+          | "bool" -> (match M.lookup_bool u sec key with Some true -> ok ["TRUE"] | Some false -> ok ["FALSE"] | None -> ok ["NONE"])
+          | "all" -> pres_list (M.lookup_all u sec key)
+          | "all_raw" -> ok (List.map of_str (M.lookup_all_values u sec key))
+          | "args" -> ok (List.map of_str (M.lookup_all_args u sec key))
+          | "strv" -> ok (List.map of_str (M.lookup_all_strv u sec key))
+          | "keyval" ->
+              let kv = List.map (fun (k, v) -> (encode (List.map int_of_n k), encode (List.map int_of_n v))) (M.lookup_all_key_val u sec key) in
+              let kv = List.sort compare kv in
+              ok (List.concat_map (fun (k, v) -> [hex k; hex v]) kv)
+          | "has_key" -> ok [tf (M.has_key u sec key)]
+          | _ -> failwith "bad lookup kind")
+       | M.Err -> "ERR\tUnit" | M.OutOfFuel -> "MODELFAIL\t" ^ hex "fuel")
+  | "parse_bool", [s] ->
+      (match M.unquote_value (to_str s) with
+       | None -> "ERR"
+       | Some _ -> (match M.to_bool (to_str s) with Some true -> ok ["TRUE"] | Some false -> ok ["FALSE"] | None -> ok ["INVALID"]))
   | "quote_words", ws -> ok [of_str (M.quote_words (List.map to_str ws))]
   | "quote_words_pinned", ws -> ok [of_str (M.quote_words_pinned (List.map to_str ws))]
   | "quote_value", [s] -> ok [of_str (M.quote_value (to_str s))]
